@@ -140,6 +140,75 @@ def _ser(x) -> str:
     return repr(x)
 
 
+def _has_effect(e: ast.AST) -> bool:
+    """may evaluating the expression do something besides producing a value (a call, a walrus, an await ...)?"""
+    return any(isinstance(x, (ast.Call, ast.Await, ast.Yield, ast.YieldFrom, ast.NamedExpr)) for x in ast.walk(e))
+
+
+def _blind(e: ast.AST) -> str:
+    """serialisation with every identifier blanked: orders operands without looking at names"""
+    import copy
+
+    t = copy.deepcopy(e)
+    for x in ast.walk(t):
+        if isinstance(x, ast.Name):
+            x.id = "_"
+        elif isinstance(x, ast.arg):
+            x.arg = "_"
+    return _ser(t)
+
+
+def _key(e: ast.AST):
+    """operand order: by shape first (independent of names), by spelling among operands of one shape"""
+    return (_blind(e), _ser(e))
+
+
+class _Normal(ast.NodeTransformer):
+    """Rewrites that never change what a function computes, applied bottom-up, so that two spellings of one program get
+    one tree: `if not t: B else: A` -> `if t: A else: B`; `a > b` -> `b < a`, `a >= b` -> `b <= a`; the operands of
+    `==`, `!=`, `*`, `&`, `|`, `^` in a fixed (name-blind) order.  Operands are only exchanged when at most one of them
+    can have an effect, so the order of calls (random draws, in-place methods) is never changed."""
+
+    def visit_If(self, nd: ast.If):
+        nd = self.generic_visit(nd)
+        if nd.orelse and not (len(nd.orelse) == 1 and isinstance(nd.orelse[0], ast.If)) and isinstance(nd.test, ast.UnaryOp) and isinstance(nd.test.op, ast.Not):
+            nd.test, nd.body, nd.orelse = nd.test.operand, nd.orelse, nd.body
+        return nd
+
+    def visit_IfExp(self, nd: ast.IfExp):
+        nd = self.generic_visit(nd)
+        if isinstance(nd.test, ast.UnaryOp) and isinstance(nd.test.op, ast.Not):
+            nd.test, nd.body, nd.orelse = nd.test.operand, nd.orelse, nd.body
+        return nd
+
+    def visit_Compare(self, nd: ast.Compare):
+        nd = self.generic_visit(nd)
+        if len(nd.ops) != 1:
+            return nd
+        a, b, op = nd.left, nd.comparators[0], nd.ops[0]
+        if _has_effect(a) and _has_effect(b):
+            return nd
+        if isinstance(op, (ast.Gt, ast.GtE)):
+            nd.left, nd.comparators, nd.ops = b, [a], [ast.Lt() if isinstance(op, ast.Gt) else ast.LtE()]
+        elif isinstance(op, (ast.Eq, ast.NotEq)) and _key(b) < _key(a):
+            nd.left, nd.comparators = b, [a]
+        return nd
+
+    def visit_BinOp(self, nd: ast.BinOp):
+        nd = self.generic_visit(nd)
+        if isinstance(nd.op, (ast.Mult, ast.BitAnd, ast.BitOr, ast.BitXor)) and not (_has_effect(nd.left) and _has_effect(nd.right)) and _key(nd.right) < _key(nd.left):
+            nd.left, nd.right = nd.right, nd.left
+        return nd
+
+
+def normal_skeleton(fn: ast.AST) -> str:
+    """digest of the function after the behaviour-preserving rewrites of _Normal, with bound names indexed"""
+    import copy
+
+    t = _Normal().visit(copy.deepcopy(fn))
+    return skeleton(ast.fix_missing_locations(t))[0]
+
+
 def functions_of(tree: ast.Module):
     for st in tree.body:
         if isinstance(st, (ast.FunctionDef, ast.AsyncFunctionDef)):
@@ -173,6 +242,19 @@ def normalise_module(relpath: str, tree: ast.Module) -> List[str]:
         if not r:
             continue
         dig, names = skeleton(fn)
+        if dig != r["skeleton"] and r.get("normal") and r.get("src") and normal_skeleton(fn) == r["normal"]:
+            # the same program up to operand order of commutative operators, mirrored comparisons, the polarity of two-armed
+            # ifs and the names of locals: read as the reference spells it
+            try:
+                ref_fn = ast.parse(r["src"]).body[0]
+            except (SyntaxError, IndexError):
+                continue
+            if not isinstance(ref_fn, (ast.FunctionDef, ast.AsyncFunctionDef)) or _ser(_strip_args(ref_fn.args)) != _ser(_strip_args(fn.args)):
+                continue
+            ast.increment_lineno(ref_fn, fn.lineno - ref_fn.lineno)
+            fn.body = ref_fn.body
+            notes.append(f"{relpath}::{qual}: equal to the reference up to operand order / mirrored comparisons / if-polarity / names of locals; read in the reference spelling")
+            continue
         if dig != r["skeleton"] or names == r["names"] or len(names) != len(r["names"]):
             continue
         want = list(r["names"])
@@ -196,6 +278,16 @@ def normalise_module(relpath: str, tree: ast.Module) -> List[str]:
     return notes
 
 
+def _strip_args(a: ast.arguments) -> ast.arguments:
+    import copy
+
+    a = copy.deepcopy(a)
+    for x in ast.walk(a):
+        if isinstance(x, ast.arg):
+            x.annotation = None
+    return a
+
+
 def build_fixture(root: str) -> Dict[str, Dict[str, object]]:
     out = {}
     pkg = os.path.join(root, "kaira")
@@ -212,6 +304,11 @@ def build_fixture(root: str) -> Dict[str, Dict[str, object]]:
                 continue
             for qual, node in functions_of(tree):
                 dig, names = skeleton(node)
-                if names:
-                    out[f"{rel}::{qual}"] = {"skeleton": dig, "names": names}
+                ent = {"skeleton": dig, "names": names, "normal": normal_skeleton(node)}
+                import copy
+
+                bare = copy.deepcopy(node)
+                bare.decorator_list = []
+                ent["src"] = ast.unparse(bare)
+                out[f"{rel}::{qual}"] = ent
     return out
